@@ -148,13 +148,32 @@ def run(tier):
                 for h in hists:
                     scripts.append(base + " " + " ".join(h + ["e:0:1", "e:1:0", "h:0", "h:1", "e:0:1", "e:1:0"]))
                     expects.append(("pair", eq, len(h), (a, b)))
-        # membership and lookup must give the answer equality gives (a container holding a, probed with w)
-        for v in pool:
-            for w, eq in variants(rng, v, cfg):
-                a = G.render(rng, v, cfg, rich=False)
-                b = G.render(rng, w, cfg, rich=False)
-                scripts.append("Q r0=%s r1=%s r2=%s r3=%s e:0:1 sc:2:1 ck:3:1 h:2 sc:2:1 ck:3:1" % (
-                    C.hexs(a), C.hexs(b), C.hexs(b"#{" + a + b" :other}"), C.hexs(b"{" + a + b" 1 :other 2}")))
+        # literal twins (different spellings of one value; every flag-specific spelling incl. underscores) and near misses
+        from . import c08 as C08
+        text_pairs = [(a, b, True) for a, b in C08.twin_kinds(cfg)] + [(a, b, False) for a, b in C08.near_kinds(cfg)]
+        # containers above the 16-element strategy cut-over whose members include distinct values with equal hashes, reordered
+        fill = b" ".join(b"%d" % i for i in range(1, 16))
+        for x, y in ((b":user/id", b":userid"), (b"a/bc", b"abc"), (b"{1 2, 3 4}", b"{1 4, 3 2}"), (b"[:a/bc]", b"[:abc]")):
+            text_pairs.append((b"#{" + x + b" " + y + b" " + fill + b"}", b"#{" + y + b" " + x + b" " + fill + b"}", True))
+            text_pairs.append((b"#{" + fill + b" " + x + b" " + y + b"}", b"#{" + y + b" " + fill + b" " + x + b"}", True))
+            text_pairs.append((b"#{" + x + b" " + fill + b" 16 17}", b"#{" + y + b" " + fill + b" 16 17}", False))
+            text_pairs.append((b"{" + x + b" 1 " + y + b" 2 " + b" ".join(b"%d %d" % (i, i) for i in range(1, 16)) + b"}",
+                               b"{" + y + b" 2 " + b" ".join(b"%d %d" % (i, i) for i in range(1, 16)) + b" " + x + b" 1}", True))
+        for a, b, eq in text_pairs:
+            for h in ([], ["h:0"], ["h:1", "h:0"], ["e:0:1"]):
+                scripts.append("Q r0=%s r1=%s %s" % (C.hexs(a), C.hexs(b), " ".join(h + ["e:0:1", "e:1:0", "h:0", "h:1", "e:0:1", "e:1:0"])))
+                expects.append(("pair", eq, len(h), (a, b)))
+        # membership and lookup must give the answer equality gives (a container holding a, probed with w), for containers
+        # below, at and above the element count where keys get hashed at read time, before and after hashing
+        mpairs = [(G.render(rng, v, cfg, rich=False), G.render(rng, w, cfg, rich=False), eq) for v in pool for w, eq in variants(rng, v, cfg)]
+        mpairs += text_pairs
+        for a, b, eq in mpairs:
+            for extra in (1, 15, 16):
+                fl = [b":filler%d" % i for i in range(extra)]
+                sdoc = b"#{" + a + b" " + b" ".join(fl) + b"}"
+                mdoc = b"{" + a + b" 1 " + b" ".join(f + b" 0" for f in fl) + b"}"
+                scripts.append("Q r0=%s r1=%s r2=%s r3=%s e:0:1 sc:2:1 ck:3:1 h:2 sc:2:1 ck:3:1 lk:3:1 h:3 lk:3:1 h:1 lk:3:1 ck:3:1" % (
+                    C.hexs(a), C.hexs(b), C.hexs(sdoc), C.hexs(mdoc)))
                 expects.append(("member", eq, 0, (a, b)))
         # exhaustive histories (up to 4 preceding calls over 6 operations) on a few pairs
         few = [(("list", [("int", 1), ("int", 2)]), ("vec", [("int", 1), ("int", 2)])),
@@ -210,11 +229,12 @@ def run(tier):
             if kind == "member":
                 if toks[:4] != ["ok", "ok", "ok", "ok"]:
                     continue
-                e01, sc1, ck1, _h, sc2, ck2 = toks[4:10]
+                e01, sc1, ck1, _h, sc2, ck2, lk1, _h3, lk2, _h1, lk3, ck3 = toks[4:16]
                 want = "1" if eq else "0"
-                if not (e01 == sc1 == ck1 == sc2 == ck2 == want):
+                wlk = "(int 1)" if eq else "none"
+                if not (e01 == sc1 == ck1 == sc2 == ck2 == ck3 == want and lk1 == lk2 == lk3 == wlk):
                     found = True
-                    rep.finding("algebra/membership-disagrees", "equal=%s set-contains=%s/%s contains-key=%s/%s, expected %s" % (e01, sc1, sc2, ck1, ck2, want),
+                    rep.finding("algebra/membership-disagrees", "equal=%s set-contains=%s/%s contains-key=%s/%s/%s lookup=%s/%s/%s, expected %s" % (e01, sc1, sc2, ck1, ck2, ck3, lk1, lk2, lk3, want),
                                 {"kind": "script", "config": cfg, "line": scripts[i], "observed": out, "a": what[0].decode("latin-1"), "b": what[1].decode("latin-1")})
                 continue
             if kind == "pair":
